@@ -100,9 +100,14 @@ pub struct Pre {
 
 /// An arbitrary reader state satisfying the representation invariant `Inv`, plus its ghost view.
 pub fn any_reader() -> (DeferredReader<'static>, Pre) {
+    any_reader_n::<CAP>()
+}
+
+/// Same with an explicit bound on the pre-state buffer size.
+pub fn any_reader_n<const C: usize>() -> (DeferredReader<'static>, Pre) {
     let buf_len: usize = kani::any();
-    kani::assume(buf_len <= CAP);
-    let arr: [u8; CAP] = kani::any();
+    kani::assume(buf_len <= C);
+    let arr: [u8; C] = kani::any();
     let mut buf = arr.to_vec();
     buf.truncate(buf_len);
 
@@ -210,7 +215,24 @@ fn forget(r: DeferredReader) {
 
 #[kani::proof]
 pub fn step_request_more() {
-    let (mut r, pre) = any_reader();
+    let (r, pre) = any_reader();
+    request_more_step(r, pre, true);
+}
+
+/// The realign + shrink region with a buffer twice as large (the shrink decision compares the
+/// buffer size with four times the window plus chunk, so its boundary cases need room): chunk
+/// size 1, cursor past the realign threshold, pre-state buffer of SHRINKCAP/2+1 ..= SHRINKCAP bytes.
+#[kani::proof]
+pub fn step_request_more_shrink_region() {
+    let (r, pre) = any_reader_n::<SHRINKCAP>();
+    kani::assume(pre.chunk == 1 && pre.pos_in_buf > 2 && pre.buf_len > SHRINKCAP / 2 && !pre.complete);
+    unsafe {
+        kani::assume(G_W >= pre.cur && G_W - pre.cur < pre.valid_len); // the witness lies in the live window
+    }
+    request_more_step(r, pre, false);
+}
+
+fn request_more_step(mut r: DeferredReader<'static>, pre: Pre, full: bool) {
     let res = r.request_more();
     check_inv(&r, &pre, 0);
     assert!(r.mark() == pre.mark); // the mark designates the same absolute offset (D1)
@@ -245,12 +267,12 @@ pub fn step_request_more() {
             }
             kani::cover!(realigned, "realign taken");
             kani::cover!(realigned && pre.buf_len > 4 * (pre.valid_len + pre.chunk), "shrink taken");
-            kani::cover!(r.buf.len() > pre.buf_len, "buffer grown");
+            kani::cover!(!full || r.buf.len() > pre.buf_len, "buffer grown");
             kani::cover!(G_INTR == 2, "interrupted twice");
             kani::cover!(r.io_error.is_some() && !pre.has_err, "terminal error parked");
             kani::cover!(G_ENDED && !r.io_error.is_some(), "clean end");
             kani::cover!(G_OK_READS == 1 && r.valid_len == pre.valid_len + pre.chunk, "full chunk");
-            kani::cover!(G_OK_READS == 1 && r.valid_len < pre.valid_len + pre.chunk, "short read");
+            kani::cover!(!full || (G_OK_READS == 1 && r.valid_len < pre.valid_len + pre.chunk), "short read");
             kani::cover!(realigned && G_W >= pre.cur && G_W - pre.cur < pre.valid_len, "witness moved by realign");
         }
     }
